@@ -1423,4 +1423,70 @@ theorem Pc.idle_of_pushing {p : Pc} (h : p.pushing = true) : p ≠ .idle := by
 theorem Pc.idle_of_popping {p : Pc} (h : p.popping = true) : p ≠ .idle := by
   intro e; subst e; simp [Pc.popping] at h
 
+theorem Pc.popping_of_not_pushing {p : Pc} (h0 : p ≠ .idle) (h : p.pushing = false) :
+    p.popping = true := by
+  cases p <;> simp_all [Pc.pushing, Pc.popping]
+
+/-- the ghost `arg t` is exactly the argument of thread `t`'s latest `callPush` -/
+theorem step_arg {s s' : St} {e : Ev} (hs : step s e = some s') (t : Nat) :
+    s'.arg t = match (generalizing := false) e with
+      | .callPush u v => if t = u then v else s.arg t
+      | _ => s.arg t := by
+  simp only [step, Option.map_eq_some_iff] at hs
+  obtain ⟨s1, hs, rfl⟩ := hs
+  show s1.arg t = _
+  cases e <;> simp only [core] at hs <;> (repeat' split at hs) <;> simp at hs <;> subst hs <;>
+    first | rfl | simp [upd_apply]
+
+/-- why a pusher about to read its slot can find it non-NULL -/
+theorem Inv.nonnull_cause {N : Nat} {s : St} (h : Inv N s) {t v l i : Nat}
+    (hpc : s.pc t = .pushGotHigh v l i) (hb : s.buf (i % N) ≠ 0) :
+    (∃ u j x, u ≠ t ∧ j % N = i % N ∧ s.pc u = .popClaimed j x) ∨
+    s.high = s.low + N ∨ i < s.high := by
+  have d := h.data
+  obtain ⟨j, hm, hw, hc⟩ := d.nonnull _ hb
+  have hj := d.wr_lt j hw
+  have hok := h.pcok t; rw [hpc] at hok
+  have hi : i ≤ s.high := hok.2.2.2
+  by_cases hjl : j < s.low
+  · obtain ⟨u, x, hu⟩ := h.uncl j hjl hc
+    refine Or.inl ⟨u, j, x, ?_, hm, hu⟩
+    intro e; subst e; rw [hpc] at hu; cases hu
+  · right
+    by_cases e : i = s.high
+    · left
+      subst e
+      have := mod_gap hm hj
+      have := d.high_le
+      omega
+    · right; omega
+
+/-- why a popper about to read its slot can find it NULL -/
+theorem Inv.null_cause {N : Nat} {s : St} (h : Inv N s) {t hh l : Nat}
+    (hpc : s.pc t = .popGotLow hh l) (hb : s.buf (l % N) = 0) :
+    (∃ u v, u ≠ t ∧ s.pc u = .pushClaimed v l) ∨ s.high = s.low ∨ l < s.low := by
+  have d := h.data
+  have hok := h.pcok t; rw [hpc] at hok
+  have hl : l ≤ s.low := hok.2
+  by_cases e : l = s.low
+  · subst e
+    by_cases hlt : s.low < s.high
+    · left
+      cases hw : s.written s.low with
+      | false =>
+        obtain ⟨u, v, hu⟩ := h.unwr _ hlt hw
+        refine ⟨u, v, ?_, hu⟩
+        intro e; subst e; rw [hpc] at hu; cases hu
+      | true =>
+        exfalso
+        have hc : s.cleared s.low = false := by
+          cases hc : s.cleared s.low with
+          | false => rfl
+          | true => have := d.cl_lt _ hc; omega
+        have := d.live _ hw hc
+        rw [hb] at this
+        exact d.nz _ _ this rfl
+    · right; left; have := d.low_le; omega
+  · right; right; omega
+
 end LibfiberVerif.Ring
